@@ -2,6 +2,9 @@
 # usage: harmlessrun.sh <id>...  applies /verif/harmless/<id>/patch.diff (a behaviour-preserving change of
 # /repo), runs every quick check, reports any alarm, and always restores /repo afterwards.
 cd /verif
+# evidence files describe the unchanged tree: keep them out of these runs
+bk=$(mktemp -d /verif/.build/evidence-bk.XXXXXX); cp -a evidence/. $bk/
+trap 'cp -a $bk/. /verif/evidence/; rm -rf $bk' EXIT
 for id in "$@"; do
   if ! git -C /repo diff --quiet; then echo "/repo is dirty, refusing"; exit 2; fi
   git -C /repo apply /verif/harmless/$id/patch.diff || { echo "$id: patch does not apply"; continue; }
